@@ -283,7 +283,7 @@ def position_programs(part, nparts):
 
 def units(tier, seed):
     us = [('chains',), ('positions', 0, 3), ('positions', 1, 3), ('positions', 2, 3)]
-    for i in range(12 if tier == 'quick' else 200):
+    for i in range(32 if tier == 'quick' else 200):
         us.append(('random', i))
     return us
 
@@ -325,6 +325,23 @@ def judge(res, case, rec, e, variables, family):
                 tags = [json.dumps(x) for x in log if x and x[0] == 't']
                 if len(tags) == len(set(tags)):
                     res.count("accepted:eager-arguments-after-mismatch")
+                    return
+        # an under-supplied call (fewer arguments than the function declares) fails whatever is done with the
+        # arguments it has: any error is right, and so is any evaluation strategy for that call that stays "at
+        # most once, in source order" - everything logged before the call started must match, what follows
+        # must be a duplicate-free sub-sequence of the lazy in-order reference
+        if obs[0] == 'err':
+            for o, ev in outs:
+                sc = getattr(ev, 'short_calls', None)
+                if not sc or o[0] != 'err':
+                    continue
+                el = norm_log(ev.log)
+                p0 = sc[0]
+                rest = log[p0:]
+                keys = [json.dumps(x) for x in rest]
+                it = iter(el[p0:])
+                if log[:p0] == el[:p0] and all(any(x == y for y in it) for x in rest):
+                    res.count("accepted:under-supplied-call")
                     return
         if not complete and not is_crash(obs):
             res.count("skipped:map-order-unbounded")
